@@ -194,7 +194,11 @@ TCtor == /\ IsEvent("ctor")
          /\ Ev.outcome = CtorOutcome(Ev.samplers, Ev.scheduler)
          /\ Consume /\ UNCHANGED <<vars, pidmap, chosen>>
 
-TNext == /\ \/ TCtor \/ Silent \/ TCall \/ TSample \/ TModel \/ TLoss \/ TFault \/ TCkpt \/ TRet \/ TRaise \/ TIdle \/ TDisk
+TSetSched == /\ IsEvent("setsched")
+             /\ SetScheduler(Ev.line)
+             /\ Consume /\ UNCHANGED <<pidmap, chosen>>
+
+TNext == /\ \/ TCtor \/ TSetSched \/ Silent \/ TCall \/ TSample \/ TModel \/ TLoss \/ TFault \/ TCkpt \/ TRet \/ TRaise \/ TIdle \/ TDisk
             \/ TMkCkpt \/ TRestore \/ TSet
          /\ UNCHANGED K
 
